@@ -103,6 +103,7 @@ def run(ctx):
     ctx.section(_receiver_shift_agreement, ctx, index)
     ctx.section(_wrap_unconditional, ctx, index, spy, facts_at)
     ctx.section(_lookups, ctx, index, spy)
+    ctx.section(_state, ctx, index)
 
 
 def _once(ctx, index):
@@ -322,3 +323,19 @@ def _classify_index(f, defs, idx, owner, attr):
     if "._idx" in txt:
         return "argument-index", "`._idx` is the position in args.args"
     return "unknown", ""
+
+
+def _state(ctx, index):
+    """
+    C13.state: the value written is the input's CURRENT value: nothing reachable from sync_properties keeps
+    module-level state or memoises between calls (C10's rules on that slice) — a cached evaluation of the
+    input file would write a stale value after the file changed.
+    """
+    from ..core import RefGraph
+    from . import c10
+
+    graph = RefGraph(index)
+    reach = graph.reachable([index.func("cdd.compound.sync_properties.sync_properties").qual])
+    ctx.count("state_functions", len(reach))
+    ctx.need(len(reach) >= 10, "the sync_properties pipeline shrank to {} functions: call graph no longer resolves it".format(len(reach)))
+    c10._modstate(ctx.view(lambda w: getattr(w, "qual", None) in reach, rule="C13.state", prefix="state_"))
